@@ -42,6 +42,8 @@ def gen_cases(tier, rng):
     for u1 in EUNITS:
         cases.append({"cls": "accessor-pairs", "u1": u1, "x": r3(rng.uniform(0.3, 3.0)), "cost": 3})
     cases.append({"cls": "length-pairs", "cost": 1})
+    for cut in (50.0, 100.0, 10.0):
+        cases.append({"cls": "cutoff-arguments", "cut_cm": cut, "seed": int(rng.integers(1 << 30)), "cost": 6})
     npg = 150 if tier == "quick" else 1500
     for i in range(npg):
         depth = int(rng.integers(1, 6))
@@ -184,6 +186,65 @@ def run_case(case, ctx):
             ctx.check("context-restores-units", 0.0 if m.get_current_units("energy") in ("1/fs", "int") else 1.0, 0.0,
                       {"after": "accessor round trips", "units": m.get_current_units("energy")})
         ctx.key(("accessors", u1))
+        ctx.nontrivial(True)
+        return
+
+    if cls == "cutoff-arguments":
+        # energy-valued ARGUMENTS of library calls are units managed too: the same physical cut-off supplied under any
+        # unit must select the same couplings (stored Hamiltonian / remainder coupling / tensor independent of the context)
+        from qrv.oracles.units import E_FAC
+        cm = E_FAC["1/cm"]
+        Hd = numpy.diag([0.0, 12000.0, 12100.0, 12250.0, 12400.0]) * cm
+        Jcm = {(1, 2): 30.0, (2, 3): -80.0, (3, 4): 200.0, (1, 4): -45.0, (1, 3): 55.0, (2, 4): 120.0}
+        for (a, b), v in Jcm.items():
+            Hd[a, b] = Hd[b, a] = v * cm
+        cut_cm = case["cut_cm"]
+
+        def run(unit):
+            c = U.e_from_int(cut_cm * cm, unit) if unit is not None else cut_cm * cm
+            out = {}
+            for how in ("remove", "subtract", "diagonalize"):
+                H = qr.Hamiltonian(data=Hd.copy())
+                with (qr.energy_units(unit) if unit is not None else contextlib.nullcontext()):
+                    cc = c if unit is not None else cut_cm * cm
+                    if how == "remove":
+                        H.remove_cutoff_coupling(cc)
+                    elif how == "subtract":
+                        H.subtract_cutoff_coupling(cc)
+                    else:
+                        H.diagonalize(coupling_cutoff=cc)
+                        H.undiagonalize()
+                out[how] = (numpy.array(H._data, copy=True), numpy.array(H.JR, copy=True) if getattr(H, "JR", None) is not None else None)
+            s = build.gen_system(numpy.random.default_rng(case["seed"]), N=3, Nt=100, dt=1.0, dipoles=False)
+            s["J"] = [[0.0, 30.0, 120.0], [30.0, 0.0, -70.0], [120.0, -70.0, 0.0]]
+            agg, t, cfs = build.make_aggregate(s)
+            with (qr.energy_units(unit) if unit is not None else contextlib.nullcontext()):
+                cc = c if unit is not None else cut_cm * cm
+                with contextlib.redirect_stdout(io.StringIO()):
+                    R, hR = agg.get_RelaxationTensor(t, relaxation_theory="cRF", coupling_cutoff=cc)
+            out["cRF"] = (numpy.array(hR._data, copy=True), numpy.array(R._data, copy=True))
+            return out
+        with ctx.lib("cut-off functions, internal units"):
+            ref = run(None)
+        for unit in [u for u in EUNITS if u not in ("nm",)]:
+            try:
+                with ctx.lib("cut-off functions under " + unit):
+                    got = run(unit)
+            except Exception as e:
+                if type(e).__name__ == "LibRaised":
+                    continue
+                raise
+            for how in ref:
+                for k in range(2):
+                    a, b = ref[how][k], got[how][k]
+                    if a is None and b is None:
+                        continue
+                    ok = a is not None and b is not None and a.shape == b.shape
+                    res = float(numpy.max(numpy.abs(a - b))) if ok else float("inf")
+                    ctx.check("stored-value-context-independent", res, RTOL * float(numpy.max(numpy.abs(a))) + 1e-300,
+                              {"accessor": "coupling cut-off argument: " + how, "unit": unit, "cutoff_cm": cut_cm, "what": ["Hamiltonian", "remainder/tensor"][k]})
+                ctx.sub(("cutoff", how, unit), nontrivial=True)
+        ctx.key(("cutoff", cut_cm))
         ctx.nontrivial(True)
         return
 
